@@ -70,6 +70,16 @@ CLAIMED = {
     note=("Trusted: lianvc + encoding, z3; CFG predecessor/edge-kind queries as uninterpreted functions (get_graph_edge_weight: bounded stand-in); symbol space lookups uninterpreted; "
           "graph writes opaque. Two genuine defects repaired by fix: commits (edge kinds of MultiDiGraphs, skipped kill), one recorded (F8)."),
     design='§4 C06'),
+ 'C08': dict(
+    text=("Proof of the SECOND sentence only (literal text is data); the first sentence (abstract values cover concrete values) is NOT decided by this family. On the real code, for "
+          "all operand states and all operators of the GIR token set: the only text StmtStates.compute_two_states hands to util.strict_eval is operand SP operator SP operand, every "
+          "operand being repr() of its text (a complete string literal: no way out of the quotes), a string of digits, or the text of a value of a non-string builtin type; an "
+          "operand that is a string not made of digits is always the repr() image, whatever the operator; on evaluation errors the fallback is plain concatenation. "
+          "StmtDefUseAnalysis.adjust_constant_string strips exactly one pair of matching outer quotes. Static: util.strict_eval scans for CALL before eval; no other evaluator call "
+          "site exists in src/lian."),
+    note=("Trusted: lianvc + encoding, z3 (strings); repr()/isdigit()/eval semantics as stated axioms; numeric-typed states hold numeric tokens (assumed). One genuine defect "
+          "repaired by a fix: commit (unescaped quoting, unquoted and/or)."),
+    design='§4 C08', category='proof'),
  'C11': dict(
     text=("Proof (partial: the rule side; the data-dependence side is not decided): on the real taint_analysis.py, for all state flow graphs and rule lists: "
           "TaintRuleApplier.get_sink_tag_by_rules takes a rule as matching only if it is a configured sink rule whose operation/name clause holds, ORs a predecessor's tag into the "
